@@ -92,6 +92,12 @@ def probe_abstract_adjacent():
     return Registry('abstract_adjacent', direct, [(2, [1, 3]), (2, [0, 3])], [[[1, 4], [2, 4]], [[1, 3], [0, 4], [2, 5]]])
 
 
+def probe_leaf_param(presentation='direct', rec_order=None):
+    # R1, R2, C:{R2}, D:{R1,C}; uni-methods on the leaf D, on its indirect base R2 and on R1
+    direct = [[], [], [1], [0, 2]]
+    return Registry('leaf_param', direct, [(1, [3]), (1, [1]), (1, [0])], [[[3]], [[1], [3]], [[0]]], presentation, rec_order)
+
+
 def probe_next():
     # C03: (A,A), (A,Dog), (Dog,A), (Dog,Cat) over Animal <- Dog, Cat
     return Registry('tree3_next', LATTICES['tree3'], [(2, [0, 0]), (2, [0, 0])],
@@ -149,7 +155,7 @@ def c03_queries(tier):
 
 
 def c04_queries(tier):
-    regs = [probe_c04(), probe_c04('complete', [1, 0, 2, 3]), probe_c04('direct', [1, 0, 2, 3]), probe_three_roots(), probe_diamond(), probe_deep_join(), probe_first_slot_sum()]
+    regs = [probe_c04(), probe_c04('complete', [1, 0, 2, 3]), probe_c04('direct', [1, 0, 2, 3]), probe_three_roots(), probe_diamond(), probe_deep_join(), probe_first_slot_sum(), probe_leaf_param('direct', [0, 3, 2, 1]), probe_leaf_param('complete', [0, 3, 2, 1]), probe_leaf_param('complete', [3, 0, 2, 1])]
     regs += family(tier, shapes=(1, 1, 2, 1, 5), nm=3, max_defs=2)
     if True:
         # incremental (direct bases only) presentation of the family, in a second registration order
@@ -161,11 +167,11 @@ def c04_queries(tier):
 def c06_queries(tier):
     rnd = random.Random(seed() * 7 + 3)
     base = [probe_c06(), probe_nontransitive(), probe_diamond(), probe_mi_unrelated(), probe_next()] + family(tier, per=1)
-    base += [probe_deep_join((0, 1, 2, 3, 4)), probe_c04('direct')]
+    base += [probe_deep_join((0, 1, 2, 3, 4)), probe_c04('direct'), probe_leaf_param('complete'), probe_leaf_param('direct')]
     qs = []
     nperm = 3 if tier == 'quick' else 8
     for i, r in enumerate(base):
-        k = nperm if i < 5 else (6 if r.name in ('deep_join', 'probe_c04') else (1 if tier == 'quick' else 3))
+        k = nperm if i < 5 else (6 if r.name in ('deep_join', 'probe_c04', 'leaf_param') else (1 if tier == 'quick' else 3))
         import itertools
         if r.name in ('probe_c06', 'nontransitive'):
             # all 6 orders of the three definitions
@@ -188,6 +194,8 @@ def c08_queries(tier):
             qs.append(_q('C08', pr, 'presentation_%s_%s' % (p, tag(r, i)), desc='base lists presented as: ' + p))
     for j, ro in enumerate(([4, 3, 2, 1, 0], [4, 2, 3, 1, 0], [0, 1, 2, 3, 4], [3, 4, 0, 2, 1])):
         qs.append(_q('C08', probe_deep_join(ro), 'presentation_direct_deep_join_o%d' % j, desc='deep chain joined with an unrelated root, direct bases only, record order %s' % ro))
+    for j, (p, ro) in enumerate((('direct', [0, 3, 2, 1]), ('direct', [3, 0, 2, 1]), ('complete', [0, 3, 2, 1]), ('split', None), ('direct', [1, 2, 3, 0]))):
+        qs.append(_q('C08', probe_leaf_param(p, ro), 'presentation_%s_leaf_param_o%d' % (p, j), desc='leaf class and its indirect base both method parameters; %s, record order %s' % (p, ro)))
     # the property's own probe: incremental registration, class C11 registered before C10
     for p in ('direct', 'direct_noself', 'complete'):
         qs.append(_q('C08', probe_c04(p, [1, 0, 2, 3]), 'presentation_%s_probe_c04_c11_first' % p, desc='base lists presented as: %s; C11 registered first' % p))
@@ -222,7 +230,8 @@ def c10_queries(tier):
                      symbolic='argument classes and which of its two ids each argument object carries'))
         sparse = Registry(r.name, r.direct, r.methods, r.defs, r.presentation, ids=[3 + 4 * k for k in range(len(r.direct))])
         qs.append(_q('C10', sparse, 'custom_ids_' + tag(r, i), desc='custom integer ids 3,7,11,... (identity projection)'))
-    return qs + deferred_queries('C10', tier)
+    from checks import C05
+    return qs + deferred_queries('C10', tier) + C05.projection_queries(tier)
 
 
 def c15_queries(tier):
